@@ -33,7 +33,7 @@ SORTED_INSERT = {'bisect.insort', 'bisect.insort_right', 'bisect.insort_left', '
                  'insort_left', 'heapq.heappush', 'heappush'}
 HEAD_REMOVE_FUNCS = {'heapq.heappop', 'heappop'}
 READ_FUNCS = {'len', 'sorted', 'list', 'tuple', 'any', 'all', 'min', 'max', 'sum', 'enumerate', 'reversed',
-              'iter', 'bool', 'copy.copy', 'str', 'repr', 'print'}
+              'iter', 'bool', 'copy.copy', 'str', 'repr', 'print', 'itertools.chain', 'chain', 'filter', 'map', 'zip', 'itertools.islice'}
 
 
 OPAQUE = ('step', 'schedule_event')
